@@ -115,7 +115,17 @@ class C15Machine(Machine):
         if index % 3 == 2:
             return self.gen_roundtrip(rng)
         small = tier == 'quick'
-        exp = expgen.gen_experiment(rng, faults=False, max_samples=2 if small else 4, max_beads=1 if small else 2, small=small)
+        wide = rng.chance(0.04)
+        exp = expgen.gen_experiment(rng, faults=False, max_samples=2 if small else 4, max_beads=1 if small else 2, small=small,
+                                    wide=wide)
+        if wide:
+            # a wide panel: one row reports (almost) every fluorescence channel
+            fl = exp['instruments'][0]['fl']
+            exp['samples'][0]['units'] = {c: rng.choice(['RFI', 'Channel', 'a.u.']) for c in fl[:rng.choice([10, 11, 12])]}
+            exp['beads'] = []
+            for s_ in exp['samples']:
+                s_['Beads ID'] = None
+                s_['units'] = {c: (u if u.strip().lower() != 'mef' else 'RFI') for c, u in s_['units'].items()}
         # clustering on up to three channels (3-D diagnostic plot) where the instrument has them
         for b in exp['beads']:
             inst = [i for i in exp['instruments'] if i['ID'] == b['Instrument ID']][0]
@@ -124,10 +134,13 @@ class C15Machine(Machine):
         exp['extra_sheet'] = rng.chance(0.3)
         if rng.chance(0.05):
             exp['samples'] = []                       # a Samples sheet with a header and no rows is still well formed
-        plot = rng.chance(0.12 if small else 0.25)
+        plot = rng.chance(0.12 if small else 0.25) or (wide and rng.chance(0.7))
+        if plot and exp['samples'] and rng.chance(0.4):
+            exp['samples'][-1]['units'] = {}              # a row that reports no channel still gets its figure
+            exp['samples'][-1]['Beads ID'] = None
         return {'arm': 'run', 'exp': exp, 'plot': plot, 'hist': rng.chance(0.5), 'explicit_out': rng.chance(0.5),
                 'in_name': rng.choice(['experiment.xlsx', 'experiment.xlsx', 'plate.1.xlsx', 'my data v2.0.xlsx', 'a.b.c.xlsx', 'x.xlsx']),
-                'preexisting_dirs': rng.chance(0.4), 'rerun': rng.chance(0.3),
+                'preexisting_dirs': rng.chance(0.4), 'rerun': rng.chance(0.3), 'relative_input': rng.chance(0.25),
                 'subdir': rng.chance(0.3), 'seed': rng.randint(0, 2 ** 31 - 1), 'dpi': rng.choice([20, 30, 60]),
                 'clock': rng.choice([rng.randint(946684800, 2082758399), 86400 * rng.randint(11000, 24000) - 1])}
 
@@ -333,6 +346,16 @@ class C15Machine(Machine):
                 return orig_savefig(fig, fname, *a, **kw)
             seams.seed_global_rng(case['seed'])
             old_dpi = F.plot.savefig_dpi
+            run_in = in_path
+            run_out = out_path
+            old_cwd = os.getcwd()
+            if case.get('relative_input') and case['arm'] == 'run':
+                # the user types a relative path: `flowcal -i work/experiment.xlsx` from the directory above
+                os.chdir(os.path.dirname(wdir))
+                run_in = os.path.join(os.path.basename(wdir), os.path.basename(in_path))
+                if out_path:
+                    run_out = os.path.relpath(out_path, os.path.dirname(wdir))
+                out['probes']['relative_input_path'] = 1
             signal.signal(signal.SIGALRM, _alarm)
             signal.setitimer(signal.ITIMER_REAL, LIVENESS_S)
             t0 = _time.time()
@@ -344,11 +367,11 @@ class C15Machine(Machine):
                     warnings.simplefilter('ignore')
                     F.plot.savefig_dpi = case.get('dpi', 30)
                     try:
-                        X.run(input_path=in_path, output_path=out_path, verbose=False, plot=case['plot'], hist_sheet=case['hist'])
+                        X.run(input_path=run_in, output_path=run_out, verbose=False, plot=case['plot'], hist_sheet=case['hist'])
                         if case.get('rerun'):
                             # history: the same workbook processed a second time into the same place
                             seams.seed_global_rng(case['seed'])
-                            X.run(input_path=in_path, output_path=out_path, verbose=False, plot=case['plot'],
+                            X.run(input_path=run_in, output_path=run_out, verbose=False, plot=case['plot'],
                                   hist_sheet=case['hist'])
                             out['probes']['second_run_on_same_workbook'] = 1
                     except Timeout:
@@ -358,6 +381,7 @@ class C15Machine(Machine):
                         rk, err = 'exc:' + type(e).__name__, '%s | %s' % (str(e)[:200], traceback.format_exc().splitlines()[-3].strip())
             finally:
                 signal.setitimer(signal.ITIMER_REAL, 0)
+                os.chdir(old_cwd)
                 F.plot.savefig_dpi = old_dpi
                 plt.close('all')
                 io_seam.close_leaked()
@@ -416,7 +440,7 @@ class C15Machine(Machine):
                         V.append(violation('C15/files', 'bad-xlsx', '%s is not a zip container' % c))
                     log.add('created', c, 'nonempty' if len(data) else 'EMPTY')
                 if exp_out in after:
-                    self.check_output(os.path.join(wdir, exp_out), tables_in, exp, case, clock, in_path, V, out)
+                    self.check_output(os.path.join(wdir, exp_out), tables_in, exp, case, clock, run_in, V, out)
             if exp is not None:
                 from machines.batch import units_class
                 out['sigs'].add('run|%s|%d/%d|%s|cl%d' % (opt, len(exp['beads']), len(exp['samples']),
